@@ -212,6 +212,9 @@ def gen_away_and_back(rng, ctx, pool, use_auto):
     values = [v for v in values if not v.startswith("Auto:")] if dim == "Language" else list(values)
     a, b = rng.sample(values, 2) if len(values) >= 2 else (values[0], values[0])
     hist = [["set_preference", "TTS", pal["TTS"][0]]]
+    if dim != "CheckRuleFiles" and rng.random() < 0.25:
+        # the switch must take effect whatever the re-reading policy is (None = the files are never looked at again)
+        hist.append(["set_preference", "CheckRuleFiles", rng.choice(["None", "None", "All"])])
     if dim != "Language" and (rng.random() < 0.6 or (dim == "DecimalSeparator" and not use_auto)):
         hist.append(["set_preference", "Language", pal["Language"][0] if dim == "DecimalSeparator" else rng.choice([l for l in pal["Language"] if not l.startswith("Auto:")])])
     if dim != "BrailleCode" and rng.random() < 0.5:
